@@ -194,7 +194,9 @@ def run_reshuffle(case):
     mods["state"] = st = State()
     mods["grid"] = plugin("agrid").Grid(modules=mods, imax=12, jmax=9, dx=100.0, h=h0, hmode="step")
     n = 6
-    xs = [3.2 if k % 2 == 0 else 6.2 for k in range(n)]
+    # even h0-indexed cases: deep water only at the first step (the shallow particle arrives at step 1); others: mixed from the start
+    deep_first = int(round(h0 * 2)) % 4 != 0
+    xs = [6.2 if (deep_first or k % 2) else 3.2 for k in range(n)]
     hs = [h0 if x < 4.5 else 2 * h0 for x in xs]
     d = 0.3 * h0
     dd = np.full(n, d if vmode != "w" else 0.0) * (0.75 if vmode == "both" else 1.0)
@@ -216,7 +218,7 @@ def run_reshuffle(case):
         if step == 1:  # one particle dies, is removed, and another is released: same count, every slot now holds another cell
             st["alive"][0] = False
             st.compactify()
-            st.append(X=3.2 if xs[-1] > 4.5 else 6.2, Y=4.2, Z=(0.9 * h0 if xs[-1] > 4.5 else 1.0 * h0))
+            st.append(X=3.2 if (xs[-1] > 4.5 or deep_first) else 6.2, Y=4.2, Z=(0.9 * h0 if (xs[-1] > 4.5 or deep_first) else 1.0 * h0))
         fo.update()
         zb, xb = st.Z.copy(), st.X.copy()
         try:
